@@ -101,4 +101,8 @@ CONTRACTS = [variant(Run, "C06", P), variant(Spawn, "C06", P), variant(AsyncScop
 def extra_contracts():
     """A context stream is an asynchronous scope too: what its source spawns must belong to the stream's own task group."""
     from .C11 import StreamBody
-    return [variant(StreamBody, "C06", ("C06-P6",))]
+    from .C08 import Exit
+    # ... and "if the body fails or is cancelled the remaining spawned tasks are cancelled rather than awaited indefinitely"
+    # also when the cancellation arrives while the disposables are exiting: the scope recognises it by its class, so the
+    # disposables' exit must answer it with CancelledError itself, not with a group wrapping it
+    return [variant(StreamBody, "C06", ("C06-P6",)), variant(Exit, "C06", ("P4:a-cancelled-exit-raises-CancelledError",))]
